@@ -126,7 +126,18 @@ func fixTree(ns []treeNode) []treeNode {
 	return ns
 }
 
-func runFind(id int, c *findCase, dp *dict.Parser, shift int) findLine {
+// reindex records the position (path of sibling indexes) of every AVP of the forest as it is now
+func reindex(as []*diam.AVP, prefix []int, pos map[*diam.AVP][]int) {
+	for i, a := range as {
+		p := append(append([]int(nil), prefix...), i+1)
+		pos[a] = p
+		if g, ok := a.Data.(*diam.GroupedAVP); ok {
+			reindex(g.AVP, p, pos)
+		}
+	}
+}
+
+func runFind(id int, c *findCase, dp *dict.Parser, shift int) []findLine {
 	c.Tree = fixTree(c.Tree)
 	g2 := 9050
 	if id%3 == 1 {
@@ -176,97 +187,116 @@ func runFind(id int, c *findCase, dp *dict.Parser, shift int) findLine {
 		}
 		return wireCode(code, shift)
 	}
-	codes := []int{u32, oct, 9018, g2, 9008}
-	dv := func(code int) int {
-		if code == 9101 {
-			return abs.VVendor
-		}
-		return 0
-	}
-	// by name together with a vendor id: the vendor the dictionary defines the name for, and another one
-	for _, code := range codes {
-		for _, other := range []bool{false, true} {
-			qv := dv(code)
-			if other {
-				qv = abs.VVendor - qv
+	collect := func() {
+		codes := []int{u32, oct, 9018, g2, 9008}
+		dv := func(code int) int {
+			if code == 9101 {
+				return abs.VVendor
 			}
-			q := findQuery{Mode: "first", Codes: []int{code}, ByName: true, Res: [][]int{}, QV: qv, DV: dv(code)}
-			q.Perr = safely(func() {
-				a, err := m.FindAVP(codeNames[code], uint32(qv))
-				q.Err = err != nil
-				if a != nil {
-					q.Res = where([]*diam.AVP{a})
+			return 0
+		}
+		// by name together with a vendor id: the vendor the dictionary defines the name for, and another one
+		for _, code := range codes {
+			for _, other := range []bool{false, true} {
+				qv := dv(code)
+				if other {
+					qv = abs.VVendor - qv
 				}
+				q := findQuery{Mode: "first", Codes: []int{code}, ByName: true, Res: [][]int{}, QV: qv, DV: dv(code)}
+				q.Perr = safely(func() {
+					a, err := m.FindAVP(codeNames[code], uint32(qv))
+					q.Err = err != nil
+					if a != nil {
+						q.Res = where([]*diam.AVP{a})
+					}
+				})
+				l.Q = append(l.Q, q)
+				q2 := findQuery{Mode: "all", Codes: []int{code}, ByName: true, Res: [][]int{}, QV: qv, DV: dv(code)}
+				q2.Perr = safely(func() {
+					as, err := m.FindAVPs(codeNames[code], uint32(qv))
+					q2.Err = err != nil
+					q2.Res = where(as)
+				})
+				l.Q = append(l.Q, q2)
+				q3 := findQuery{Mode: "path", Codes: []int{code}, ByName: true, Res: [][]int{}, QV: qv, DV: dv(code)}
+				q3.Perr = safely(func() {
+					as, err := m.FindAVPsWithPath([]interface{}{codeNames[code]}, uint32(qv))
+					q3.Err = err != nil
+					q3.Res = where(as)
+				})
+				l.Q = append(l.Q, q3)
+			}
+		}
+		for _, code := range codes {
+			for _, bn := range []bool{false, true} {
+				q := findQuery{Mode: "first", Codes: []int{code}, ByName: bn, Res: [][]int{}, QV: -1, DV: dv(code)}
+				q.Perr = safely(func() {
+					a, err := m.FindAVP(key(code, bn), dict.UndefinedVendorID)
+					q.Err = err != nil
+					if a != nil {
+						q.Res = where([]*diam.AVP{a})
+					}
+				})
+				l.Q = append(l.Q, q)
+				q2 := findQuery{Mode: "all", Codes: []int{code}, ByName: bn, Res: [][]int{}, QV: -1, DV: dv(code)}
+				q2.Perr = safely(func() {
+					as, err := m.FindAVPs(key(code, bn), dict.UndefinedVendorID)
+					q2.Err = err != nil
+					q2.Res = where(as)
+				})
+				l.Q = append(l.Q, q2)
+			}
+		}
+		pc := []int{u32, oct, 9018, g2}
+		var paths [][]int
+		for _, a := range pc {
+			paths = append(paths, []int{a})
+			for _, b := range pc {
+				paths = append(paths, []int{a, b})
+				for _, cc := range pc {
+					paths = append(paths, []int{a, b, cc})
+				}
+			}
+		}
+		paths = append(paths, []int{9008}, []int{9018, 9008}, []int{9008, u32}, []int{9018, g2, 9018, oct})
+		for k, p := range paths {
+			q := findQuery{Mode: "path", Codes: p, ByName: k%2 == 1, Res: [][]int{}, QV: -1}
+			q.Perr = safely(func() {
+				var ip []interface{}
+				for j, code := range p {
+					ip = append(ip, key(code, q.ByName && (j%2 == 0 || k%4 == 3))) // every other named path: all elements by name
+				}
+				as, err := m.FindAVPsWithPath(ip, dict.UndefinedVendorID)
+				q.Err = err != nil
+				q.Res = where(as)
 			})
 			l.Q = append(l.Q, q)
-			q2 := findQuery{Mode: "all", Codes: []int{code}, ByName: true, Res: [][]int{}, QV: qv, DV: dv(code)}
-			q2.Perr = safely(func() {
-				as, err := m.FindAVPs(codeNames[code], uint32(qv))
-				q2.Err = err != nil
-				q2.Res = where(as)
-			})
-			l.Q = append(l.Q, q2)
-			q3 := findQuery{Mode: "path", Codes: []int{code}, ByName: true, Res: [][]int{}, QV: qv, DV: dv(code)}
-			q3.Perr = safely(func() {
-				as, err := m.FindAVPsWithPath([]interface{}{codeNames[code]}, uint32(qv))
-				q3.Err = err != nil
-				q3.Res = where(as)
-			})
-			l.Q = append(l.Q, q3)
 		}
-	}
-	for _, code := range codes {
-		for _, bn := range []bool{false, true} {
-			q := findQuery{Mode: "first", Codes: []int{code}, ByName: bn, Res: [][]int{}, QV: -1, DV: dv(code)}
-			q.Perr = safely(func() {
-				a, err := m.FindAVP(key(code, bn), dict.UndefinedVendorID)
-				q.Err = err != nil
-				if a != nil {
-					q.Res = where([]*diam.AVP{a})
-				}
-			})
-			l.Q = append(l.Q, q)
-			q2 := findQuery{Mode: "all", Codes: []int{code}, ByName: bn, Res: [][]int{}, QV: -1, DV: dv(code)}
-			q2.Perr = safely(func() {
-				as, err := m.FindAVPs(key(code, bn), dict.UndefinedVendorID)
-				q2.Err = err != nil
-				q2.Res = where(as)
-			})
-			l.Q = append(l.Q, q2)
-		}
-	}
-	pc := []int{u32, oct, 9018, g2}
-	var paths [][]int
-	for _, a := range pc {
-		paths = append(paths, []int{a})
-		for _, b := range pc {
-			paths = append(paths, []int{a, b})
-			for _, cc := range pc {
-				paths = append(paths, []int{a, b, cc})
+		for i := range l.Q {
+			if l.Q[i].Perr != "" {
+				l.Q[i].Err = true
+				l.Q[i].Res = [][]int{{-2}}
 			}
 		}
 	}
-	paths = append(paths, []int{9008}, []int{9018, 9008}, []int{9008, u32}, []int{9018, g2, 9018, oct})
-	for k, p := range paths {
-		q := findQuery{Mode: "path", Codes: p, ByName: k%2 == 1, Res: [][]int{}, QV: -1}
-		q.Perr = safely(func() {
-			var ip []interface{}
-			for j, code := range p {
-				ip = append(ip, key(code, q.ByName && (j%2 == 0 || k%4 == 3))) // every other named path: all elements by name
-			}
-			as, err := m.FindAVPsWithPath(ip, dict.UndefinedVendorID)
-			q.Err = err != nil
-			q.Res = where(as)
-		})
-		l.Q = append(l.Q, q)
-	}
-	for i := range l.Q {
-		if l.Q[i].Perr != "" {
-			l.Q[i].Err = true
-			l.Q[i].Res = [][]int{{-2}}
+	collect()
+	out := []findLine{l}
+	if len(c.Tree) >= 2 && id%4 == 0 {
+		// the caller edits the message it searched (drops its first AVP) and searches again: every search
+		// is about the message as it is now, nothing found earlier is remembered
+		m.AVP = m.AVP[1:]
+		for k := range pos {
+			delete(pos, k)
 		}
+		reindex(m.AVP, nil, pos)
+		l2 := l
+		l2.Tree = c.Tree[1:]
+		l = l2
+		l.Q = []findQuery{}
+		collect()
+		out = append(out, l)
 	}
-	return l
+	return out
 }
 
 func randTree(r *rand.Rand, depth int, budget *int) []treeNode {
@@ -318,10 +348,14 @@ func Find(a Args) error {
 				return err
 			}
 			id++
-			out.Emit(runFind(id, &c, vp, 0))
+			for _, fl := range runFind(id, &c, vp, 0) {
+				out.Emit(fl)
+			}
 			if id%4 == 0 {
 				// the same names under a dictionary that maps them to other codes
-				out.Emit(runFind(id, &c, vp2, 300))
+				for _, fl := range runFind(id, &c, vp2, 300) {
+					out.Emit(fl)
+				}
 			}
 			return nil
 		})
@@ -334,8 +368,12 @@ func Find(a Args) error {
 		budget := 10 + r.Intn(190)
 		c := findCase{Tree: randTree(r, 6, &budget)}
 		id++
-		out.Emit(runFind(id, &c, vp, 0))
-		out.Emit(runFind(id, &c, vp2, 300))
+		for _, fl := range runFind(id, &c, vp, 0) {
+			out.Emit(fl)
+		}
+		for _, fl := range runFind(id, &c, vp2, 300) {
+			out.Emit(fl)
+		}
 	}
 	return nil
 }
